@@ -8,7 +8,7 @@ import re
 from ..index import AnalysisError, parent
 from ..paths import Summarizer
 from ..typeflow import RAW, TypeInfer, mismatch, parse_annotation, show
-from .c12 import SETTING_KEYS, agree, source_type
+from .c12 import SETTING_KEYS, OpaqueHelper, agree, source_type
 from .c13 import ancestors, stmt_of
 from .common import loc
 from .jsonio import ReaderRecord, WriterRecord, check_typed_fields, check_writer_schema, load_schemas
@@ -54,7 +54,11 @@ def run(chk):
         if k not in key_field:
             chk.fail('C17.R1', repo.where(rec.mod, v), rec.qual, f"'{k}'", f'key {k!r} is written but the settings reader has no field for it')
             continue
-        src = source_type(repo, rec.ti, v)
+        try:
+            src = source_type(repo, rec.ti, v)
+        except OpaqueHelper as e:
+            chk.note(f'key {k!r}: {e.why} - read-back equality of this key is decided by the whole-document rule C17.R7')
+            continue
         ann = setting.annots[key_field[k]]
         chk.require(agree(repo, src, ann), 'C17.R1', repo.where(rec.mod, v), rec.qual, f"'{k}': {ast.unparse(v)[:60]}",
                     f'key {k!r} serialises what field {key_field[k]} declares', f'key {k!r} serialises {src}, field `{key_field[k]}` is {show(ann)}')
